@@ -21,12 +21,12 @@ CLAUSES = {"C01": {"ShownIsBest", "DefaultIffNone", "ResolveTotal", "unmatched-e
            "C02": {"CorrectIff"}, "C03": {"ScoreIs"}}
 FIELDS = {"C01": {"shown"}, "C02": {"correct"}, "C03": {"score"}}
 CFGS = {
-    ("C01", "quick"): ["MC_Resolver_rank_q.cfg", "MC_Resolver_supp_q.cfg", "MC_Resolver_alias_q.cfg", "MC_Resolver_twice_q.cfg"],
-    ("C01", "thorough"): ["MC_Resolver_rank_t.cfg", "MC_Resolver_rank3_t.cfg", "MC_Resolver_supp_t.cfg", "MC_Resolver_alias_q.cfg", "MC_Resolver_twice_q.cfg"],
+    ("C01", "quick"): ["MC_Resolver_rank_q.cfg", "MC_Resolver_supp_q.cfg", "MC_Resolver_alias_q.cfg", "MC_Resolver_twice_q.cfg", "MC_Resolver_catf_q.cfg"],
+    ("C01", "thorough"): ["MC_Resolver_rank_t.cfg", "MC_Resolver_rank3_t.cfg", "MC_Resolver_supp_t.cfg", "MC_Resolver_alias_q.cfg", "MC_Resolver_twice_q.cfg", "MC_Resolver_catf_q.cfg"],
     ("C02", "quick"): ["MC_Resolver_correct_q.cfg", "MC_Resolver_supp_q.cfg", "MC_Resolver_else_q.cfg"],
     ("C02", "thorough"): ["MC_Resolver_correct_t.cfg", "MC_Resolver_supp_t.cfg", "MC_Resolver_else_q.cfg"],
-    ("C03", "quick"): ["MC_Resolver_score_q.cfg", "MC_Resolver_frac_q.cfg"],
-    ("C03", "thorough"): ["MC_Resolver_score_t.cfg", "MC_Resolver_score3_t.cfg", "MC_Resolver_frac_q.cfg"],
+    ("C03", "quick"): ["MC_Resolver_score_q.cfg", "MC_Resolver_frac_q.cfg", "MC_Resolver_catf_q.cfg"],
+    ("C03", "thorough"): ["MC_Resolver_score_t.cfg", "MC_Resolver_score3_t.cfg", "MC_Resolver_frac_q.cfg", "MC_Resolver_catf_q.cfg"],
 }
 MUTANTS = {"C01": [("MUT_Resolver_unstable_sort.cfg", "ShownIsBest")],
            "C02": [("MUT_Resolver_correct_or.cfg", "CorrectIff"),
